@@ -214,7 +214,18 @@ func runC04(t *testing.T, c FaultCase) (*h.Violation, h.Info) {
 			return r.v, info
 		}
 	}
-	lastPlan.Store(planSummary{Op: opKind, Window: len(win), Faults: len(plan), Fired: firedN})
+	ps := planSummary{Op: opKind, Window: len(win), Faults: len(plan), Fired: firedN}
+	for _, c := range win {
+		if _, ok := fsCalls[c.Name]; ok {
+			ps.Calls = append(ps.Calls, c.Name)
+		}
+	}
+	for i, r := range results {
+		if r.fired && i%7 == 0 && len(ps.Examples) < 8 {
+			ps.Examples = append(ps.Examples, r.f.String())
+		}
+	}
+	lastPlan.Store(ps)
 	faultsRun.Add(int64(len(plan)))
 	faultsFired.Add(int64(firedN))
 	for _, r := range results {
@@ -325,10 +336,12 @@ func judge(f Fault, o runOut, path string, create bool, op dbx.Op, preBytes []by
 }
 
 type planSummary struct {
-	Op     string `json:"op"`
-	Window int    `json:"window_calls"`
-	Faults int    `json:"faults_in_plan"`
-	Fired  int    `json:"faults_fired"`
+	Op       string   `json:"op"`
+	Window   int      `json:"window_calls"`
+	Calls    []string `json:"window"` // the file-system calls of the traced save window, in order
+	Faults   int      `json:"faults_in_plan"`
+	Fired    int      `json:"faults_fired"`
+	Examples []string `json:"example_faults"`
 }
 
 var (
